@@ -27,6 +27,7 @@ import (
 	"path/filepath"
 	"sort"
 	"strconv"
+	"strings"
 	"sync"
 	"sync/atomic"
 	"time"
@@ -273,6 +274,11 @@ func initTSTable(fileSystem fs.FileSystem, rootPath string, p common.Position,
 			continue
 		}
 		if filepath.Ext(ee[i].Name()) != snapshotSuffix {
+			// "<epoch>.snp.tmp" is what WriteAtomic leaves behind when the process dies
+			// before the rename; nothing ever reads it again.
+			if strings.HasSuffix(ee[i].Name(), snapshotSuffix+".tmp") {
+				needToDelete = append(needToDelete, ee[i].Name())
+			}
 			continue
 		}
 		snapshot, err := parseSnapshot(ee[i].Name())
@@ -311,6 +317,14 @@ func initTSTable(fileSystem fs.FileSystem, rootPath string, p common.Position,
 		for _, id := range failedSnapshotIDs {
 			tst.l.Info().Str("path", filepath.Join(rootPath, snapshotName(id))).Msg("delete unreadable snapshot file")
 			fileSystem.MustRMAll(filepath.Join(rootPath, snapshotName(id)))
+		}
+		// Snapshots older than the loaded one are leftovers of a crash between publishing a
+		// snapshot and gc.clean; the garbage cleaner only knows the epochs of this process.
+		for _, id := range loadedSnapshots {
+			if id < epoch {
+				tst.l.Info().Str("path", filepath.Join(rootPath, snapshotName(id))).Msg("delete stale snapshot file")
+				fileSystem.MustRMAll(filepath.Join(rootPath, snapshotName(id)))
+			}
 		}
 		return &tst, epoch, nil
 	}
